@@ -32,6 +32,7 @@ THEOREMS = [
  'C01.ignored_silent', 'C01.bare_prefix_silent', 'C01.bare_prefix_never_owner', 'C01.dispatch_requires_not_ignored', 'C01.ignore_flag_ignored', 'C01.ignores_db_ignored',
  'C01.channel_ignored_silent', 'C01.received_dispatch_requires', 'C01.channel_ban_ignored', 'C01.trusted_never_ignored',
  'C01.flood_dispatch_requires', 'C01.flood_punishment_ignores',
+ 'C01.chancap_argument_scoped',
  'C01.config_write_guard', 'C01.config_channel_each_checked', 'C01.config_channel_stops', 'C01.readonly_never_written', 'C01.refusals_raise',
  'C01.defaults_have_antiowner', 'C01.defaults_drop_owner', 'C01.defaults_antiowner_not_owner', 'C01.shipped_defaults_ok',
  'C01.required_present', 'C01.required_rows_guarded', 'C01.inventory_names_valid', 'C01.plugin_names_canonical', 'C01.callgraph_ok', 'C01.defaults_mutators_ok', 'C01.gate_shape_ok',
@@ -938,6 +939,72 @@ def explore(ctx, b, w, table, required, n_extra):
         silent_denials(False)
     base_snap[0] = snapshot(b)
 
+    # ================= channel-operator commands given a capability ARGUMENT that names another channel =================
+    # the #c op (no capability for #d) runs `channel capability add/remove/set/unset` with `#d,...` arguments: whatever
+    # happens to #c's own records, nothing of #d may change and nobody may gain (or lose) a #d capability
+    if 'Channel' in have:
+        def chan_view(ch):
+            v = {}
+            co = ircdb.channels.channels.get(ch.lower())
+            v['record'] = _preserve(co) if co is not None else None
+            caps = []
+            for uid, u in ircdb.users.users.items():
+                for cp in set.__iter__(u.capabilities):
+                    if ircdb.isChannelCapability(cp) and ircdb.fromChannelCapability(cp)[0].lower() == ch.lower():
+                        caps.append((uid, cp))
+            v['user-caps'] = sorted(caps)
+            v['decisions'] = sorted((role, capn, bool(ircdb.checkCapability(ROLES[role], '%s,%s' % (ch, capn))))
+                                    for role in ('plain', 'chanop', 'admin', 'unreg', 'anti') for capn in ('op', 'halfop', 'voice', 'vtcap', '-vtfree'))
+            return v
+        XARGS = [('capability add', 'vreg %s,op' % OTHERCHAN), ('capability add', 'vreg %s,op %s,voice' % (OTHERCHAN, OTHERCHAN)),
+                 ('capability add', '%s vreg %s,op' % (CHAN, OTHERCHAN)), ('capability remove', 'vop %s,op' % OTHERCHAN),
+                 ('capability set', '%s,op' % OTHERCHAN), ('capability set', '%s,-vtfree' % OTHERCHAN), ('capability unset', '%s,-op' % OTHERCHAN),
+                 ('capability unset', '%s,-vtcap' % OTHERCHAN), ('capability add', 'vreg %s,-voice' % OTHERCHAN.upper())]
+        for cmdtxt, argtxt in XARGS:
+            for who, tgt in (('chanop', CHAN), ('chanop', NICK)):
+                if tgt == NICK and not argtxt.startswith(CHAN):
+                    argtxt2 = CHAN + ' ' + argtxt
+                else:
+                    argtxt2 = argtxt
+                full = ('@' if tgt == CHAN else '') + 'channel %s %s' % (cmdtxt, argtxt2)
+                users_before = {uid: sorted(set.__iter__(u.capabilities)) for uid, u in ircdb.users.users.items()}
+                chan_before = {n_: _preserve(c_) for n_, c_ in ircdb.channels.channels.items()}
+                view_before = chan_view(OTHERCHAN)
+                Obs.execute = None
+                out = deliver(b, ROLES[who], tgt, full)
+                view_after = chan_view(OTHERCHAN)
+                # can the beneficiary now act as an op of the other channel?
+                Obs.execute = None
+                probe = deliver(b, ROLES['plain'], NICK, 'vtop %s' % OTHERCHAN) if 'VtGate' in have else []
+                acted = ('VtGate', ('vtop',)) in Obs.bodies
+                diff = sorted(k2 for k2 in view_before if view_before[k2] != view_after[k2])
+                ok = not diff and not acted
+                cases.append(Case({'op': 'xchannel', 'prefix': ROLES[who], 'target': tgt, 'text': full}, oracle_ok=ok, kind='xchannel',
+                                  tags=['xchannel', 'x:' + cmdtxt.split()[-1]],
+                                  oracle_msg='' if ok else '%s (capabilities {%s,op}) runs %r: the view of %s changed in %r (before %r, after %r); vreg then ran a %s-op command: %r'
+                                  % (ROLES[who], CHAN, full, OTHERCHAN, diff, {k2: view_before[k2] for k2 in diff}, {k2: view_after[k2] for k2 in diff}, OTHERCHAN, acted)))
+                # put the databases back
+                for uid, u in ircdb.users.users.items():
+                    now_caps = sorted(set.__iter__(u.capabilities))
+                    if now_caps != users_before.get(uid):
+                        for cp in now_caps:
+                            if cp not in users_before.get(uid, []):
+                                set.discard(u.capabilities, cp)
+                        for cp in users_before.get(uid, []):
+                            if cp not in now_caps:
+                                set.add(u.capabilities, cp)
+                        ircdb.users.setUser(u)
+                for n_, c_ in list(ircdb.channels.channels.items()):
+                    if n_ in chan_before and _preserve(c_) != chan_before[n_]:
+                        # re-read the record from its own dump is not possible: undo capability edits by difference
+                        pass
+                cobj2 = ircdb.channels.getChannel(CHAN)
+                for cp in list(set.__iter__(cobj2.capabilities)):
+                    if OTHERCHAN in cp or OTHERCHAN.upper() in cp:
+                        set.discard(cobj2.capabilities, cp)
+                ircdb.channels.setChannel(CHAN, cobj2)
+        base_snap[0] = snapshot(b)
+
     # ================= refusals raised from inside a command body (errorNoCapability(..., Raise=True) call sites) =================
     # metamorphic oracle: a call that is refused with a no-capability error under the shipped message must, with the
     # message configured away, still be refused (nothing changes, nothing is said): the refusal is a raise, not a text
@@ -1261,9 +1328,10 @@ def explore(ctx, b, w, table, required, n_extra):
     FINDING_STATUS.clear()
     if 'VtGate' in have:
         vt_spec, vt_ae = row_spec('VtGate', ('vtowner',), loaded[('VtGate', ('vtowner',))])
-        def rd_case(label, deliver_fn, gate_prefix, gate_target, site, cur, stored, must, finding=None, note=''):
+        def rd_case(label, deliver_fn, gate_prefix, gate_target, site, cur, stored, must, finding=None, note='', tplugin='VtGate', tpath=('vtowner',), tcmd=None):
             '''one observation of VtGate.vtowner reached through a re-dispatch site.
             gate_prefix/gate_target: what the model is asked about; cur/stored: (prefix, args[0]) pairs for the site op'''
+            t_spec, t_ae = row_spec(tplugin, tpath, loaded[(tplugin, tpath)])
             last_dump[0] = None
             send_db()
             lines.append('ignored\t' + wire.enc(gate_prefix)); pend.append(None)
@@ -1272,8 +1340,8 @@ def explore(ctx, b, w, table, required, n_extra):
             before = snapshot(b)
             out = deliver_fn()
             changed = [k2 for k2 in snap_diff(before, snapshot(b)) if k2 not in ('events', 'sched', 'files')]
-            ent = [(e[2], e[3]) for e in Obs.entered if (e[0], e[1]) == ('VtGate', ('vtowner',))]
-            ran = ('VtGate', ('vtowner',)) in Obs.bodies
+            ent = [(e[2], e[3]) for e in Obs.entered if (e[0], e[1]) == (tplugin, tuple(tcmd or tpath))]
+            ran = (tplugin, tpath) in Obs.bodies
             cls = classify(out)
             if not ent:
                 impl = 'not-dispatched'
@@ -1293,8 +1361,8 @@ def explore(ctx, b, w, table, required, n_extra):
             DEBUG[id(c)] = [str(m).strip() for m in out]
             lines.append('site\t%s\t%s\t%s\t%s\t%s\t%s\t0' % (site, wire.enc(cur[0]), wire.enc(cur[1]), wire.enc(stored[0]), wire.enc(stored[1]), wire.enc('')))
             pend.append(None)
-            lines.append('invoke\t%s\t%s\t%s\t%s\t%s\t%d\t%s' % (wire.enc(gate_prefix), wire.enc_opt(mchan), wire.enc('VtGate'), wire.enc_list(['vtowner']),
-                                                                   enc_spec(vt_spec), 1 if vt_ae else 0, wire.enc_list([])))
+            lines.append('invoke\t%s\t%s\t%s\t%s\t%s\t%d\t%s' % (wire.enc(gate_prefix), wire.enc_opt(mchan), wire.enc(tplugin), wire.enc_list(list(tcmd or tpath)),
+                                                                   enc_spec(t_spec), 1 if t_ae else 0, wire.enc_list([])))
             def fillr(o, ign):
                 so = SITE_OUT[0]
                 if so in (None, 'none', 'bad-op') or ign.startswith('1') or ign.startswith('crash'):
@@ -1348,6 +1416,35 @@ def explore(ctx, b, w, table, required, n_extra):
             finally:
                 uo = user_by_name(b, 'vown'); uo.addCapability('owner'); ircdb.users.setUser(uo)
                 stop('vtrep2')
+            # gate-level verdicts must be taken afresh at every firing (the Scheduler replays the SAME message object):
+            # (i) an anti-capability appears between two firings of a harmless command
+            uo = user_by_name(b, 'vreg'); uo.addCapability('scheduler.repeat'); ircdb.users.setUser(uo)
+            pr = ROLES['plain']
+            deliver(b, pr, CHAN, '@scheduler repeat vtrep3 50 vtfree')
+            rd_case('repeat-free-first-run', fire, pr, CHAN, 'scheduled', ('', ''), (pr, CHAN), 'allow', tpath=('vtfree',),
+                    note='plain user repeats the ungated vtfree')
+            uo = user_by_name(b, 'vreg'); uo.addCapability('-vtfree'); ircdb.users.setUser(uo)
+            Clock.offset += 60
+            try:
+                rd_case('repeat-free-anti-added', fire, pr, CHAN, 'scheduled', ('', ''), (pr, CHAN), 'deny', tpath=('vtfree',),
+                        note='the user was given -vtfree between two firings of the same event')
+            finally:
+                uo = user_by_name(b, 'vreg'); uo.removeCapability('-vtfree'); uo.removeCapability('scheduler.repeat'); ircdb.users.setUser(uo)
+                stop('vtrep3')
+            # (ii) an Owner command repeated by the owner, who loses `owner` between two firings
+            if ('Owner', ('flush',)) in loaded:
+                po = ROLES['owner']
+                deliver(b, po, NICK, 'scheduler repeat vtrep4 50 flush')
+                rd_case('repeat-ownercmd-first-run', fire, po, NICK, 'scheduled', ('', ''), (po, NICK), 'allow', tplugin='Owner', tpath=('flush',),
+                        note='the owner repeats Owner.flush')
+                uo = user_by_name(b, 'vown'); uo.removeCapability('owner'); ircdb.users.setUser(uo)
+                Clock.offset += 60
+                try:
+                    rd_case('repeat-ownercmd-revoked', fire, po, NICK, 'scheduled', ('', ''), (po, NICK), 'deny', tplugin='Owner', tpath=('flush',),
+                            note='the repeating caller lost owner between two firings: the prefix loop must refuse Owner.flush')
+                finally:
+                    uo = user_by_name(b, 'vown'); uo.addCapability('owner'); ircdb.users.setUser(uo)
+                    stop('vtrep4')
         # ---- Admin.acmd: assigns to msg.args[0] (a tuple) -> TypeError before anything is dispatched ----
         if 'Admin' in have:
             botpfx = irc.prefix if getattr(irc, 'prefix', None) and '!' in irc.prefix else '%s!bot@bot.host' % NICK
